@@ -254,6 +254,13 @@ theorem nodup_map_on {α β : Type} {f : α → β} {l : List α}
     have := hinj y (List.mem_cons_of_mem _ hy) x (by simp) hxy
     exact hn.1 (this ▸ hy)
 
+theorem nodup_of_nodup_map {α β : Type} (f : α → β) {l : List α} (hn : (l.map f).Nodup) : l.Nodup := by
+  induction l with
+  | nil => simp
+  | cons x t ih =>
+    simp only [List.map_cons, List.nodup_cons, List.mem_map, not_exists, not_and] at hn
+    exact List.nodup_cons.mpr ⟨fun h => hn.1 x h rfl, ih hn.2⟩
+
 theorem find?_append_of_find? {α : Type} {p : α → Bool} {l r : List α} {a : α}
     (h : l.find? p = some a) : (l ++ r).find? p = some a := by
   simp [List.find?_append, h]
